@@ -175,6 +175,11 @@ ErrStmts == [
   PrintLongCyclic  |-> <<SDecl(Q, EBin("+", ERange(I(0), I(39)), EList(<<I(0)>>))), SAssign(EIndex(Q, I(39)), Q), SPrint(Q)>>,
   PrintLongUtf8    |-> <<SDecl(Q, EBin("+", ERange(I(0), I(33)), EList(<<Eacute0>>))), SPrint(Q)>>,
   PrintNestedUtf8  |-> <<SPrint(EObj(<<Pair(EStr(KA), I(1)), Pair(EStr(<<98>>), EList(<<I(2), Eacute0>>))>>))>>,
+  \* a parameter called `this` collides with the receiver binding of a method call
+  ThisParam        |-> <<SDecl(Q, EObj(<<Pair(EStr(<<109>>), EFunc(<<EVar(N_this)>>, FALSE, <<>>))>>)),
+                         SExpr(ECall(EProp(Q, <<109>>), <<I(1)>>))>>,
+  ThisRedeclared   |-> <<SDecl(Q, EObj(<<Pair(EStr(<<109>>), EFunc(<<>>, FALSE, <<SDecl(EVar(N_this), I(1))>>))>>)),
+                         SExpr(ECall(EProp(Q, <<109>>), <<>>))>>,
   PrintCyclic      |-> <<SDecl(Q, EList(<<I(1)>>)), SAssign(EIndex(Q, I(0)), Q), SPrint(Q)>>
 ]
 
@@ -262,7 +267,7 @@ TraceIsActiveCalls ==
     (Finished /\ pi[1] \in {"expr", "stmt"} /\ status.k = "failed") =>
         LET d == status.diag
             n == Len(d.trace)
-            extra == IF pi[2] \in {"ParamBindError"} THEN 1
+            extra == IF pi[2] \in {"ParamBindError", "ThisParam", "ThisRedeclared"} THEN 1
                      ELSE IF pi[1] = "expr" /\ pi[3] = "fnbodyexpr" THEN 1 ELSE 0 IN
         /\ n = Depth + extra
         /\ n > 0 => d.trace[n].fn.k = "root"
